@@ -43,9 +43,9 @@ def run(tier, seed):
             if ob.verdict == "discharged":
                 ob.verdict = HELD
     # track U: the same function for symbol lists of every length (loop invariants + ghost state): proved obligations
-    from contracts.regalloc_u import u_contract
+    from contracts.regalloc_u import symbol_body_contract, u_contract
 
-    run_contracts(rep, [u_contract()])
+    run_contracts(rep, [u_contract(), symbol_body_contract()])
     over_16_live(rep)
     replay_known(rep, "C04")
     run_bounded(rep, "C04", [("pressure", {"depth": 4, "max_stmts": 8, "max_funcs": 3}, "calls", 500 if q else 12000),
@@ -57,6 +57,7 @@ def run(tier, seed):
     rep.trust("spec/ic10_machine.py, spec/dialect.py (a clobbered live value shows up as a difference of effects)", "pyvc symbolic execution of assign_colors (complete unrolling for n symbols)")
     rep.assume("assign_colors is proved for every number of symbols (track U: 2 loop invariants of 10 + 9 clauses, ghost owner lists / slot fields; mathematical integers); the K obligations (n <= N, complete unrolling) are an independent second encoding of the same function and are labelled bounded",
                "U proof: quantified obligations are discharged by z3 e-matching (MBQI off); 'hypotheses consistent' guards can only show that false is not derivable by instantiation, not exhibit a model",
+               "assign_registers: only the body of `for sym in symbols` is under contract (colour c -> c-th register not blocked by a caller, within r0-r15, else the out-of-registers error); the call-graph / blocked-set construction around it is bounded only (known findings C04-transitive-blocking, C04-inlined-return-register)",
                "sorted(xs, key) is an assumed external contract (stable permutation, non-decreasing in key)",
                "that line-interval lifetimes cover real liveness is a whole-program claim: only exercised by the bounded simulation check (dynamically witnessed clobbers only)")
     return rep.finish(min_obligations=10)
